@@ -89,13 +89,20 @@ def run(ctx):
             continue
         case, info = g
         r = rng.random()
-        if r < 0.15 and len(case["mods"]) > 1:
+        if r < 0.1 and len(case["mods"]) > 1:
             case["mods"].pop()
-        elif r < 0.3:
+        elif r < 0.2:
             case["mods"].append(dict(copy.deepcopy(rng.choice(case["mods"])), oid=77, rid=77))
-        elif r < 0.4:
+        elif r < 0.3:
             wd, _ = gen.gen_module(rng, enz, gen.ovh(rng, enz), gen.ovh(rng, enz))
             case["mods"].append(asm.ent_json(78, "generic:M:" + str(enz), wd))
+        elif r < 0.65:
+            # every way an assembly is refused (equal / reverse-complementary / palindromic start overhangs, a
+            # missing link, an unsuitable vector …): refused alike in every spelling
+            from props.c07 import perturb
+            case = perturb(rng, case, info, modes=["unused", "invalid-vector", "duplicate", "rc-duplicate", "rc-duplicate",
+                                                    "palindrome", "palindrome", "missing", "invalid-module", "same-object"])
+            ctx.note("refusal:" + case["mode"])
         mode = rng.choice(["lower", "per-record", "per-letter", "vector-lower", "modules-lower"])
         for i, e in enumerate([case["vector"]] + case["mods"]):
             if mode == "lower":
